@@ -218,7 +218,7 @@ func init() {
 		Runs: []hrun{
 			{Pkg: waddrmgrPkg, Fn: "ZzC05LockFresh", Tiers: "qt", Reach: []string{"c05-end"}, Bound: "fresh unlocked manager: Lock, then every secret field inspected and every private accessor tried"},
 			{Pkg: waddrmgrPkg, Fn: "ZzC05LockIssued", Tiers: "qt", Reach: []string{"c05-end"}, Bound: "after issuing 3 addresses, a lookup and a cached derivation"},
-			{Pkg: waddrmgrPkg, Fn: "ZzC05LockImports", Tiers: "qt", Reach: []string{"c05-end", "imports"}, Bound: "after importing a private key, a P2SH script and a secret witness script"},
+			{Pkg: waddrmgrPkg, Fn: "ZzC05LockImports", Tiers: "qt", Reach: []string{"c05-end", "imports"}, Bound: "after importing a private key, a P2SH script, a secret witness script and a secret taproot script"},
 			{Pkg: waddrmgrPkg, Fn: "ZzC05LockReloaded", Tiers: "qt", Reach: []string{"c05-end", "last-address-checked"}, Bound: "restart, unlock, account row loaded while unlocked (its cached last addresses carry private keys), then Lock"},
 			{Pkg: waddrmgrPkg, Fn: "ZzC05LockWatchOnlyAccount", Tiers: "qt", Reach: []string{"c05-end", "watch-only-account-loaded"}, Bound: "seeded manager holding an imported extended-public-key account with an issued address, then Lock"},
 			{Pkg: waddrmgrPkg, Fn: "ZzC05LockUntouchedScope", Tiers: "qt", Reach: []string{"c05-end", "imports-into-untouched-scope"}, Bound: "restart, unlock, private key and secret script imported into a key scope in which no account has been loaded in this session, then Lock"},
@@ -229,8 +229,8 @@ func init() {
 			{Pkg: waddrmgrPkg, Fn: "ZzC05GuessImports", Tiers: "qt", Reach: []string{"c05-end", "right-passphrase", "wrong-passphrase"}, Bound: "same after imports and issued addresses"},
 			{Pkg: waddrmgrPkg, Fn: "ZzC05Change", Tiers: "qt", Reach: []string{"c05-end", "wrong-old"}, Bound: "ChangePassphrase public/private x locked/unlocked x right/wrong old passphrase, checked immediately (with and without a Lock before the next Unlock, current and superseded passphrase in either order) and after restart"},
 		},
-		Assume:  append([]string{"scrypt ideal KDF / tokenised SHA-2 on the symbolic passphrase guess (real scrypt for the concrete ones)", "taproot script addresses are not exercised (witness script address covers the same lock() switch)"}, mgrAssume...),
-		Outside: "passphrases of other lengths than the real one in the symbolic guess, taproot script import, wallet-level DeriveFromKeyPath, histories longer than the three set-up states",
+		Assume:  append([]string{"scrypt ideal KDF / tokenised SHA-2 on the symbolic passphrase guess (real scrypt for the concrete ones)", "a secret taproot script (full-output-key form) is among the imports: its clear text must be wiped and TaprootScript() refused"}, mgrAssume...),
+		Outside: "passphrases of other lengths than the real one in the symbolic guess, wallet-level DeriveFromKeyPath (its two halves, cache and derivation, are gated separately), histories beyond the listed set-up states",
 	})
 	reg(&propDef{
 		ID: "C08",
@@ -310,16 +310,16 @@ func init() {
 			{Pkg: walletPkg, Fn: "ZzC09B1All", Tiers: "qt", Sched: true, Reach: []string{"c09-end"}, Bound: "2 goroutines, one call each from {NewAddress, NewChangeAddress, CurrentAddress} on the same account, every interleaving of their synchronisation operations with at most 1 preemptive context switch (the database model yields between releasing the writer lock and running the commit handlers)"},
 			{Pkg: walletPkg, Fn: "ZzC09B2", Tiers: "qt", Sched: true, Reach: []string{"c09-end"}, Bound: "NewAddress/NewChangeAddress pairs, at most 2 preemptions"},
 			{Pkg: walletPkg, Fn: "ZzC09B2All", Tiers: "t", Sched: true, Reach: []string{"c09-end"}, Bound: "all 9 pairs, at most 2 preemptions"},
-			{Pkg: walletPkg, Fn: "ZzC09B1Five", Tiers: "qt", Sched: true, Reach: []string{"c09-end", "spending-caller"}, Bound: "all 25 pairs from {NewAddress, NewChangeAddress, CurrentAddress, txToOutputs needing change, FundPsbt with a supplied input needing change} (funded watching-only wallet for the spending callers), at most 1 preemption"},
-			{Pkg: walletPkg, Fn: "ZzC09B2Five", Tiers: "t", Sched: true, Reach: []string{"c09-end", "spending-caller"}, Bound: "all 25 pairs, at most 2 preemptions"},
+			{Pkg: walletPkg, Fn: "ZzC09B1Six", Tiers: "qt", Sched: true, Reach: []string{"c09-end", "spending-caller", "dry-run-caller"}, Bound: "all 36 pairs from {NewAddress, NewChangeAddress, CurrentAddress, txToOutputs needing change, FundPsbt with a supplied input needing change, ImportAccountDryRun of a foreign account key into the same key scope} - all six newAddrMtx sites (funded watching-only wallet for the spending callers), at most 1 preemption"},
+			{Pkg: walletPkg, Fn: "ZzC09B2Six", Tiers: "t", Sched: true, Reach: []string{"c09-end", "spending-caller", "dry-run-caller"}, Bound: "all 36 pairs, at most 2 preemptions"},
 		},
 		Assume: append([]string{
 			"context switches only at synchronisation operations (mutexes, channel operations, the explicit yield in memdb.Commit); data-race freedom is assumed, not checked",
 			"schedule-dependent counterexamples are confirmed natively only if the Go scheduler happens to reproduce them; otherwise by deterministic re-execution in the executor",
-			"five of the six newAddrMtx call sites are driven (NewAddress, NewChangeAddress, CurrentAddress, txToOutputs, FundPsbt with supplied inputs); ImportAccountDryRun is not (it derives on a fresh account inside a transaction that is always rolled back)",
+			"all six newAddrMtx call sites are driven (NewAddress, NewChangeAddress, CurrentAddress, txToOutputs, FundPsbt with supplied inputs, ImportAccountDryRun); removing the mutex at the dry-run site ALONE is not reported: its transaction never commits, so it has no post-commit window and no schedule within the bound makes it break the statement (tried)",
 			"the spending callers run on a wallet made watching-only, so the authored transactions are not signed",
 		}, walletAssume...),
-		Outside: "more than 2 concurrent callers, more than 2 preemptions, ImportAccountDryRun, recovery's unlocked ExtendExternal/InternalAddresses, real bbolt locking",
+		Outside: "more than 2 concurrent callers, more than 2 preemptions, recovery's unlocked ExtendExternal/InternalAddresses, real bbolt locking",
 	})
 	reg(&propDef{
 		ID: "C11",
